@@ -86,6 +86,8 @@ def standard_run(rep, pid, gen_case, nontrivial, what, n_quick, n_thorough, rule
         nbad += evaluate(rep, cs, nontrivial, what, compare_class=compare_class, oracle=oracle, batch_aux=batch_aux)
         if done >= n:
             break
+    if nbad == 0:
+        nbad += file_twin_stage(rep, gen_case, random.Random(rep.seed + 4242), 150 if rep.tier == "quick" else 4000)
     alias_verdict(rep)
     if rep.broken and not rep.violations:
         extra = [gen_case(rng) for _ in range(5000)]
@@ -94,7 +96,33 @@ def standard_run(rep, pid, gen_case, nontrivial, what, n_quick, n_thorough, rule
                           {"broken": rep.broken}, no_input=True)
 
 
+def file_twin_stage(rep, gen_case, rng, n):
+    """the property's own cases once more as layer FILES (json / yaml / yml / jsonl / toml where the layer is a TOML table; YAML
+    layers partly with anchors and aliases for equal subtrees), evaluated by the command line and compared with the model of
+    loader + inheritance + evaluation: the reader of each format and the loader are the glue between the text on disk and the
+    evaluator the property speaks about"""
+    import fscheck
+    from props.toolscommon import fix_floats
+    cases, tries = [], 0
+    while len(cases) < n and tries < 20 * n:
+        tries += 1
+        c = gen_case(rng)
+        ms = [s["merge"] for s in c["steps"] if "merge" in s]
+        if not ms or any(m["parents"] != ([ms[i - 1]["id"]] if i else []) for i, m in enumerate(ms)):
+            continue        # only file-style chains have a spelling as files
+        layers = [fix_floats(m["data"]) for m in ms]
+        share = rng.random() < 0.3
+        layout, top = fscheck.chain_layout(rng, layers, exts=("json", "yaml", "toml", "toml", "yml", "jsonl"), share=share)
+        kinds = "+".join(sorted({f.rsplit(".", 1)[1] for f in layout}))
+        cases.append({"layout": layout, "opts": {"inputs": [top], "format": "json"}, "env": c.get("env") or {},
+                      "meta": {"kind": kinds + ("+anchors" if share else "")}})
+    return fscheck.file_chain_stage(rep, cases, "the same layers as files, evaluated by the command line")
+
+
 def standard_replay(payload, compare_class=False, oracle=None):
+    if "filechain" in payload.get("case", {}):
+        import fscheck
+        return fscheck.file_chain_replay(payload["case"]["filechain"])
     r = run_cases([payload["case"]], compare_class)[0]
     print("impl :", r[1])
     print("model:", r[2])
